@@ -382,3 +382,8 @@ func TestSub_enum(t *testing.T) {
 }
 
 func TestReplay(t *testing.T) { vk.Replay(t) }
+
+// native coverage-guided fuzzing over the same generator and oracle (thorough tier)
+var subNativeFuzz = vk.Register(&vk.Sub[Case]{Name: "structured_fuzz", Gen: genStructured, Check: check})
+
+func FuzzSub_structured_fuzz(f *testing.F) { vk.RunFuzz(f, subNativeFuzz) }
